@@ -167,6 +167,24 @@ Section Run.
        | v :: r => if opt_tree_eqb (value FUEL h v) (value FUEL h' v) then go (S i) r else i :: go (S i) r
        end) 0 e.
 
+  (* the operations the property speaks about: everything except assignment to /
+     deletion of PRIVATE attributes (leading underscore), which the library permits *)
+  Definition public_op (o : opcall) : bool :=
+    match o with
+    | OSetattr _ name => negb (setattr_allowed name)
+    | ODelattr _ _ => false
+    | _ => true
+    end.
+
+  (* the state after a sequence of operations (the same threading as run_ops below) *)
+  Fixpoint run_state (ops : list opcall) (e : env) (h : heap) : env * heap :=
+    match ops with
+    | [] => (e, h)
+    | o :: rest =>
+      let (h', r) := exec o e h in
+      run_state rest (e ++ [match r with RVal v => v | _ => VA ANone end]) h'
+    end.
+
   Definition sep (c : string) (xs : list string) : string :=
     match xs with
     | [] => EmptyString
